@@ -495,15 +495,18 @@ fn extract_http_status_from_response(output: &[u8]) -> hyper::StatusCode {
     }
 
     // Error responses are typically small (< 500 bytes)
-    // For larger responses, only check first 200 bytes for performance
-    let parse_len = if output.len() < 500 {
-        output.len()
-    } else {
-        output.len().min(200)
-    };
+    // For larger responses, only check first 200 bytes for performance: the prefix is
+    // cut off (not a JSON document), so fetch its top-level "status" without parsing the rest
+    if output.len() >= 500 {
+        use sonic_rs::JsonValueTrait;
+        return sonic_rs::get(&output[..200], &["status"])
+            .ok()
+            .and_then(|status_val| status_val.as_u64())
+            .map_or(hyper::StatusCode::OK, map_status_code_to_http);
+    }
 
     // Try to parse JSON and extract status code using faster parser
-    if let Ok(json_str) = std::str::from_utf8(&output[..parse_len]) {
+    if let Ok(json_str) = std::str::from_utf8(output) {
         // Use sonic-rs for faster JSON parsing
         if let Ok(json) = sonic_rs::from_str::<serde_json::Value>(json_str) {
             if let Some(status_val) = json.get("status") {
